@@ -191,11 +191,11 @@ pub fn gen(out: &mut Out, _sub: &str) {
     }
     out.extra.insert("grid_intervals".into(), json!(grid.len()));
     out.extra.insert("grid_exhaustive".into(), json!(!q));
-    if q { rng.shuffle(&mut grid); grid.truncate(36); }
+    if q { rng.shuffle(&mut grid); grid.truncate(30); }
     for x in &grid {
         for kind in KINDS { batch(out, x, kind); }
     }
-    for _ in 0..out.size(50, 400) {
+    for _ in 0..out.size(40, 400) {
         let x = rand_raw(&mut rng, 1, HINT_PCT);
         for kind in KINDS { batch(out, &x, kind); }
     }
